@@ -21,6 +21,12 @@ CHECKS = {
     "JsMapKey eq/hash (SameValueZero, eq => equal hash) are executed symbolically from BytecodeVM::execute_op's MIR and shown equal to the "
     "ECMAScript abstract operations written in SMT. No loop, no bound on values. Parser, compiler, strings, objects and the library - "
     "the bulk of the property - are outside the claim.")),
+ 'C04': dict(design='section 3, C04 (kernel changed: see DESIGN.md)', text=(
+    "Kernel claim: TypeScript's enum auto-increment. Compiler::compile_enum_declaration is executed symbolically (BytecodeBuilder "
+    "recorded as events) on two-member enums whose first member is any non-negative finite f64 literal, its negation, or absent: the value "
+    "loaded for the member without initialiser equals the TypeScript emit (previous constant + 1 in doubles), forward and reverse stores "
+    "are emitted for both members in order, and compilation never panics. EnumData (value.rs) is unreachable from compiled programs and is "
+    "not the kernel. Namespaces, parameter properties, computed/string/const/merged enums are outside the claim.")),
  'C08': dict(design='section 3, C08', text=(
     "Kernel claim: the ledger hand-over step. Interpreter::process_vm_result (every VmResult variant) and Interpreter::step entered with "
     "no active VM are executed symbolically on a lazily materialised Interpreter whose pending/cancelled order lists (any length), "
